@@ -103,10 +103,9 @@ contract(
     returns='Dict[Int,Int]', locals={'correspondence': 'Dict[Int,Int]'},
     requires=[
         "source_graph != target_graph",
-        # the last (largest) node of a non-empty source carries a non-empty membership list
-        "implies(n_nodes(source_graph) > 0, implies(has_attr(source_graph, max_node_key(source_graph), 'fragid'), "
-        "len(attr(source_graph, max_node_key(source_graph), 'fragid')) > 0))",
     ],
+    # data invariant: a membership list stored on a node is never empty (so max() of the last node's list is defined)
+    heap_invariants=['fragid'],
     ensures=(_corr_facts("n_nodes(target_graph)", _OFF, "result") + _node_facts("n_nodes(target_graph)", _OFF, _FOFF)
              + _edge_facts("n_edges(target_graph)", _OFF)),
     modifies=["source_graph"],
